@@ -2,6 +2,8 @@ package checks
 
 import (
 	"fmt"
+	"os"
+	"strconv"
 	"time"
 
 	"saomc/replica"
@@ -18,7 +20,16 @@ import (
 // wallNow is the wall clock when the harness process started. A proof dated relative to it flips between accepted
 // and "out of date" inside the explored clock offsets if (and only if) a handler reads the node's clock instead of
 // the block's: with the block time (2023 in these scripts) it is simply a future-dated proof on every replica.
-var wallNow = time.Now().Unix()
+var wallNow = func() int64 {
+	// child processes of one check run share the parent's reading, so that they build byte-identical transactions
+	if v, err := strconv.ParseInt(os.Getenv("VERIF_WALLNOW"), 10, 64); err == nil && v > 0 {
+		return v
+	}
+	return time.Now().Unix()
+}()
+
+// WallNow exposes the reference to parents that spawn script-executing children.
+func WallNow() int64 { return wallNow }
 
 func fx(name string, mk func(w *world.World) sdk.Msg) replica.TxSpec {
 	return replica.TxSpec{Name: name, Build: func(w *world.World, _ sdk.Context) sdk.Msg { return mk(w) }}
